@@ -397,6 +397,7 @@ func runHT(c *Ctx) (obls []Obl) {
 	}
 	htTemplate(c, a)
 	htGen(c, a)
+	htData(c, a)
 	return
 }
 
@@ -855,4 +856,148 @@ func blocksWithHelpers(fn *ssa.Function) []*ssa.BasicBlock {
 	}
 	visit(fn, 0)
 	return out
+}
+
+// htData (HT-complete/data:*): every value the page template reads from its
+// root — the favicon, the creation time, the Go version, GOMAXPROCS, the
+// footer, the snapshot — is put into the data map on every path of both
+// ToHTML entry points before the template is executed. A key that is only
+// ever tested by a bare {{if .Key}} is optional (the aggregated view). A
+// missing key does not fail: html/template renders "<no value>" into the page.
+func htData(c *Ctx, a *flAgg) {
+	src, ok := indexHTMLConst(c)
+	if !ok {
+		return
+	}
+	fns := funcMapNames(c)
+	builtins := map[string]interface{}{"and": 1, "or": 1, "not": 1, "len": 1, "index": 1, "eq": 1, "ne": 1, "lt": 1, "le": 1, "gt": 1, "ge": 1, "printf": 1, "print": 1, "println": 1, "html": 1, "js": 1, "urlquery": 1, "call": 1, "slice": 1}
+	trees, err := parse.Parse("t", src, "{{", "}}", fns, builtins)
+	if err != nil || trees["t"] == nil {
+		return
+	}
+	used := map[string]bool{}
+	optional := map[string]bool{}
+	var walk func(n parse.Node, root bool)
+	walkList := func(l *parse.ListNode, root bool) {
+		if l == nil {
+			return
+		}
+		for _, n := range l.Nodes {
+			walk(n, root)
+		}
+	}
+	walk = func(n parse.Node, root bool) {
+		switch v := n.(type) {
+		case *parse.ListNode:
+			walkList(v, root)
+		case *parse.ActionNode:
+			walk(v.Pipe, root)
+		case *parse.PipeNode:
+			if v == nil {
+				return
+			}
+			for _, cmd := range v.Cmds {
+				for _, arg := range cmd.Args {
+					walk(arg, root)
+				}
+			}
+		case *parse.FieldNode:
+			if root && len(v.Ident) > 0 {
+				used[v.Ident[0]] = true
+			}
+		case *parse.VariableNode:
+			if len(v.Ident) > 1 && v.Ident[0] == "$" {
+				used[v.Ident[1]] = true
+			}
+		case *parse.ChainNode:
+			walk(v.Node, root)
+		case *parse.IfNode:
+			if len(v.Pipe.Cmds) == 1 && len(v.Pipe.Cmds[0].Args) == 1 {
+				if f, ok := v.Pipe.Cmds[0].Args[0].(*parse.FieldNode); ok && root && len(f.Ident) == 1 {
+					optional[f.Ident[0]] = true
+				}
+			}
+			walk(v.Pipe, root)
+			walkList(v.List, root)
+			walkList(v.ElseList, root)
+		case *parse.RangeNode:
+			walk(v.Pipe, root)
+			walkList(v.List, false)
+			walkList(v.ElseList, root)
+		case *parse.WithNode:
+			walk(v.Pipe, root)
+			walkList(v.List, false)
+			walkList(v.ElseList, root)
+		case *parse.TemplateNode:
+			walk(v.Pipe, root)
+		}
+	}
+	walk(trees["t"].Root, true)
+	// keys set on every path
+	mustSet := func(fn *ssa.Function, until func(*Expr) bool) map[string]bool {
+		exprHome = fn.Pkg.Pkg
+		x := &SPE{Fn: fn, MaxVisits: 2}
+		x.Explore()
+		var out map[string]bool
+		for _, p := range x.Paths {
+			reached := false
+			keys := map[string]bool{}
+			for _, ev := range p.Events {
+				if ev.Kind == EvMapUpd {
+					if k, ok := constStr(ev.Key); ok && !reached {
+						keys[k] = true
+					}
+				}
+				// keys of a map literal are stored the same way
+				if ev.Kind == EvCall && until(ev.Val) {
+					reached = true
+				}
+			}
+			if !reached {
+				continue
+			}
+			if out == nil {
+				out = keys
+			} else {
+				for k := range out {
+					if !keys[k] {
+						delete(out, k)
+					}
+				}
+			}
+		}
+		return out
+	}
+	toHTML := c.L.Func("stack", "", "toHTML")
+	if toHTML == nil {
+		a.und("HT-complete", "data/toHTML", "toHTML not found", token.NoPos)
+		return
+	}
+	inner := mustSet(toHTML, func(e *Expr) bool {
+		return e.Op == OpCall && e.Fn != nil && e.Fn.Name() == "Execute"
+	})
+	for _, recv := range []string{"Aggregated", "Snapshot"} {
+		fn := c.L.Func("stack", recv, "ToHTML")
+		if fn == nil {
+			continue
+		}
+		outer := mustSet(fn, func(e *Expr) bool { return e.Op == OpCall && e.Fn == toHTML })
+		if outer == nil || inner == nil {
+			a.und("HT-complete", "data/"+recv+".ToHTML", "no path reaches the execution of the template", fn.Pos())
+			continue
+		}
+		var missing []string
+		for k := range used {
+			if optional[k] || outer[k] || inner[k] {
+				continue
+			}
+			missing = append(missing, k)
+		}
+		sort.Strings(missing)
+		if len(missing) == 0 {
+			a.ok("HT-complete", "data/"+recv+".ToHTML", fmt.Sprintf("every root value the template reads (%d keys) is set on every path before the template is executed", len(used)), fn.Pos())
+		} else {
+			a.bad("HT-complete", "data/"+recv+".ToHTML", "the template reads "+strings.Join(missing, ", ")+" from its root, which is not set on every path: the page shows \"<no value>\" there", fn.Pos())
+		}
+	}
 }
